@@ -1,4 +1,5 @@
 import Swat4.Spec.Registry
+import Swat4.Gen.Facts
 import Std.Data.ExtTreeSet
 /-!
 # Redis-level store (L2): the key families the repositories use, and their atomic steps
@@ -74,11 +75,20 @@ def touchLock (st : RStore) (k : Nat) (w : Option Nat) : RStore :=
 
 def lastOf (st : RStore) (k : Nat) : Option Nat := (st.lockLast[k]?).getD none
 
-/-- `SET key token NX EX`: succeeds iff the key is absent; always sets a TTL -/
+/-- does the `SET key token NX EX <lease>` of `redislock.Guard` give the key a TTL?  Redis sets one iff the duration
+argument is positive; the argument is the repository's lease option, whose value in a repository as `servers.New` builds
+it is `Facts.lockLeaseMs` (regenerated from the source on every run).  A lease of 0 would make this `false`, and then
+no lock cell could ever expire (`lockExpire` below). -/
+def leaseHasTTL : Bool := decide (0 < Facts.lockLeaseMs)
+
+/-- the lease extracted from the source is positive: the one place where the fact enters the model's lock cells -/
+theorem leaseHasTTL_eq : leaseHasTTL = true := by decide
+
+/-- `SET key token NX EX`: succeeds iff the key is absent; the key gets a TTL iff the lease is positive (`leaseHasTTL`) -/
 def lockSetNX (st : RStore) (k tok : Nat) : RStore × Bool :=
   match st.locks[k]? with
   | some _ => (st, false)
-  | none => ({ st.touchLock k (some tok) with locks := st.locks.insert k ⟨tok, true⟩ }, true)
+  | none => ({ st.touchLock k (some tok) with locks := st.locks.insert k ⟨tok, leaseHasTTL⟩ }, true)
 
 /-- `DEL key` -/
 def lockDel (st : RStore) (k : Nat) : RStore :=
@@ -86,11 +96,15 @@ def lockDel (st : RStore) (k : Nat) : RStore :=
   | none => st
   | some _ => { st.touchLock k none with locks := st.locks.erase k }
 
-/-- the lease expires: key removed; `dirties` = whether expiry invalidates watchers (Redis ≥ 6.0.9, miniredis) -/
+/-- the lease expires: key removed — **only if the key carries a TTL** (a key without one never expires in Redis: the
+event has no effect on it); `dirties` = whether expiry invalidates watchers (Redis ≥ 6.0.9, miniredis) -/
 def lockExpire (st : RStore) (k : Nat) (dirties : Bool) : RStore :=
   match st.locks[k]? with
   | none => st
-  | some _ => if dirties then { st.touchLock k none with locks := st.locks.erase k } else { st with locks := st.locks.erase k }
+  | some c =>
+    if c.ttl then
+      if dirties then { st.touchLock k none with locks := st.locks.erase k } else { st with locks := st.locks.erase k }
+    else st
 
 /-- instances `Add`: HSET + ZADD -/
 def insAddBatch (st : RStore) (id : Nat) (a : Addr) (now : Int) : RStore :=
